@@ -52,6 +52,7 @@ type c17Env struct {
 	wpay       [][]byte
 	readInfl   *wsCall
 	closeC     *wsCall
+	closeC2    *wsCall // a second AsyncClose
 	out        []byte
 	buf        []byte
 	pings      int
@@ -331,6 +332,21 @@ func c17Body(depth int) func(x *engine.X) {
 					})
 				}})
 			}
+			// a second AsyncClose, in whatever state the first one and the peer have left the stream (closing, acknowledged,
+			// terminated): whatever it reports, its callback runs exactly once too
+			if e.closeC != nil && e.closeC2 == nil {
+				as = append(as, act{"AsyncClose(again)", func() {
+					cc := &wsCall{kind: "AsyncClose"}
+					e.closeC2 = cc
+					e.ws.AsyncClose(websocket.CloseNormal, "bye", func(err error) {
+						cc.calls++
+						cc.err = err
+						if cc.calls > 1 {
+							x.Fail("ws/close-callback-twice", "second AsyncClose: callback ran %d times", cc.calls)
+						}
+					})
+				}})
+			}
 			if !e.peerClosed {
 				as = append(as, act{"peer-data", func() {
 					e.peerSend(wsref.Frame{Fin: true, Op: wsref.OpBinary, Payload: payloadBytes(len(e.sent)+1, 3)})
@@ -400,6 +416,9 @@ func c17Body(depth int) func(x *engine.X) {
 			if fc.calls != 1 {
 				x.Fail("ws/flush-callback-lost", "AsyncFlush: callback ran %d times after the loop went quiescent (actions %v)", fc.calls, names)
 			}
+		}
+		if e.closeC2 != nil && e.closeC2.calls != 1 {
+			x.Fail("ws/close-callback-lost", "the second AsyncClose (State() now %s): callback ran %d times after the loop went quiescent (actions %v)", e.ws.State(), e.closeC2.calls, names)
 		}
 		if e.closeC != nil && e.closeC.calls != 1 {
 			x.Fail("ws/close-callback-lost", "AsyncClose: callback ran %d times after the loop went quiescent (actions %v)", e.closeC.calls, names)
